@@ -1,11 +1,14 @@
 #!/bin/bash
-# usage: tools/heldout_run.sh [glob]   -- runs every quick check on a scratch copy for each heldout patch
-set -u
-for P in /verif/${HELDOUT_DIR:-heldout}/${1:-t_*}.diff; do
+# usage: [HELDOUT_DIR=heldout3] tools/heldout_run.sh [glob]   -- every quick check on a scratch copy per held-out patch (8 in parallel)
+cd /verif
+one() {
+  P=$1
   T=$(mktemp -d /dev/shm/sa_ref.XXXXXX)
   cp -r /repo/norminette "$T/norminette"; find "$T" -name __pycache__ -prune -exec rm -rf {} +
-  if ! (cd "$T" && patch -s -p1 < "$P"); then echo "PATCH-FAILED $P"; rm -rf "$T"; continue; fi
-  OUT=$(cd /verif && SA_REPO="$T" SA_EVIDENCE_DIR="$T/evidence" /venv/bin/python -m sa all 2>&1 | grep -v "^KNOWN-FINDING" | grep -E "^  R-|VIOLATION|ANALYSIS-ERROR|Traceback" | sed "s|$T|<copy>|g" | cut -c1-240)
+  if ! (cd "$T" && patch -s -p1 < "$P" >/dev/null 2>&1); then echo "== $(basename $P): PATCH-FAILED"; rm -rf "$T"; return; fi
+  OUT=$(SA_REPO="$T" SA_EVIDENCE_DIR="$T/evidence" /venv/bin/python -m sa all 2>&1 | grep -v "^KNOWN-FINDING" | grep -E "^  R-|VIOLATION|ANALYSIS-ERROR|Traceback|^UNDECIDED" | sed "s|$T|<copy>|g" | cut -c1-240)
   if [ -z "$OUT" ]; then echo "== $(basename $P): all silent"; else echo "== $(basename $P):"; echo "$OUT"; fi
   rm -rf "$T"
-done
+}
+export -f one
+ls /verif/${HELDOUT_DIR:-heldout}/${1:-t_*}.diff | xargs -P 8 -I{} bash -c 'one {}'
